@@ -314,6 +314,20 @@ fn with_node<R>(m: &mut M, mut idx: usize, f: &mut dyn FnMut(&mut M) -> R) -> Op
 
 /// re-type a number without changing its value, when another representation holds it
 pub fn retype(n: N, k: u16) -> N {
+    // zeros: all of 0, Int64(0), 0.0 and -0.0 are the same number
+    let is_zero = match n {
+        N::U(v) => v == 0,
+        N::I(v) => v == 0,
+        N::F(f) => f == 0.0,
+    };
+    if is_zero {
+        return match k % 4 {
+            0 => N::U(0),
+            1 => N::F(0.0),
+            2 => N::F(-0.0),
+            _ => N::I(0),
+        };
+    }
     match n {
         N::U(v) => match k % 2 {
             0 if v <= i64::MAX as u64 => N::I(v as i64),
@@ -450,7 +464,13 @@ pub fn mutate_once(m: &M, sel: u16, op: u16, arg: u16, repl: &M, kind: MutKind) 
         10 => match node {
             M::Num(N::I(v)) => *v = v.wrapping_add(1),
             M::Num(N::U(v)) => *v = v.wrapping_add(1),
-            M::Num(N::F(v)) => *v = f64::from_bits(v.to_bits().wrapping_add(1)),
+            M::Num(N::F(v)) => {
+                if arg % 4 == 0 {
+                    *v = -*v
+                } else {
+                    *v = f64::from_bits(v.to_bits().wrapping_add(1))
+                }
+            }
             M::Str(s) => s.push(if arg % 2 == 0 { '\u{0}' } else { 'a' }),
             M::Bool(b) => *b = !*b,
             M::Null => *node = M::Bool(false),
